@@ -276,7 +276,17 @@ def run(cx):
         w = cl[0]
         ups = [c for c in ast.walk(w) if isinstance(c, ast.Call) and call_name(c) == "update"]
         lp = [l for l in w.body if isinstance(l, ast.For) and norm(l.iter) == "follows_deps.items()"]
-        ok = len(ups) == 1 and len(lp) == 1 and norm(ups[0].args[0]).startswith("follow_sets[") and any(isinstance(b, ast.Break) and any(norm(e) == "sets_updated" and not pol for e, pol in facts(b)) for b in ast.walk(w))
+        ok = len(ups) == 1 and len(lp) == 1 and norm(ups[0].args[0]).startswith("follow_sets[")
+        verdict, flag, why = change_flag_loop(w)
+        if verdict == "unknown":
+            raise AnalysisError("R02c", f"{REL}::_calc_follow_sets", f"FOLLOW closure loop not recognised ({why})")
+        if verdict == "refuted":
+            cx.ob("R02c", w, False, f"FOLLOW closure does not run to a fixpoint: {why}", stmt="FOLLOW closure fixpoint")
+        if ok and verdict == "ok":
+            # the flag must record growth of the set that was updated
+            grows = [st for st in ast.walk(w) if (isinstance(st, (ast.Assign, ast.AugAssign)) and flag in {x.id for x in ast.walk(st) if isinstance(x, ast.Name) and isinstance(x.ctx, ast.Store)})
+                     and not (isinstance(st, ast.Assign) and const(st.value, bool) and st.value.value is False)]
+            ok = all(any(isinstance(c, ast.Compare) for c in ast.walk(st)) or any(isinstance(c, ast.Compare) for e, pol in facts(st) for c in ast.walk(e)) for st in grows)
         if ok:
             symv, depv = norm(lp[0].target.elts[0]), norm(lp[0].target.elts[1])
             recv = norm(ups[0].func.value)
@@ -376,23 +386,63 @@ def run(cx):
 
 
 def _fixpoint_loop(cx, rule, func, inner, what):
-    w = [x for x in func.body if isinstance(x, ast.While)]
-    ok = len(w) == 1 and const(w[0].test) and w[0].test.value is True and any(inner is x for x in ast.walk(w[0]))
-    flag = None
-    if ok:
-        brk = [b for b in ast.walk(w[0]) if isinstance(b, ast.Break) and parent(parent(b)) is w[0]]
-        for b in brk:
-            for e, pol in facts(b):
-                if isinstance(e, ast.Name) and not pol:
-                    flag = e.id
-        ok = flag is not None
-    if ok:
-        resets = [s for s in w[0].body if isinstance(s, ast.Assign) and is_name(s.targets[0], flag) and const(s.value, bool) and s.value.value is False]
-        sets = [s for s in ast.walk(w[0]) if (isinstance(s, ast.Assign) and is_name(s.targets[0], flag) and const(s.value, bool) and s.value.value is True) or
-                (isinstance(s, ast.AugAssign) and is_name(s.target, flag) and isinstance(s.op, ast.BitOr))]
-        ok = len(resets) == 1 and len(sets) >= 1
-    cx.ob(rule, w[0] if w else func, ok, f"{what} rounds repeat until no set changed" if ok else f"{what} iteration does not run to a fixpoint (change flag / break altered)", stmt=f"{what} fixpoint")
+    w = [x for x in func.body if isinstance(x, ast.While) and any(inner is y for y in ast.walk(x))]
+    cx.need(len(w) == 1, rule, func, f"{what}: loop that repeats the passes")
+    verdict, flag, why = change_flag_loop(w[0])
+    if verdict == "unknown":
+        raise AnalysisError(rule, f"{REL}::{func.name}", f"{what} fixpoint loop not recognised ({why})")
+    cx.ob(rule, w[0], verdict == "ok", f"{what} rounds repeat until no set changed" if verdict == "ok" else f"{what} iteration does not run to a fixpoint: {why}", stmt=f"{what} fixpoint")
 
+
+def change_flag_loop(w):
+    """A `repeat the pass until nothing changed` loop.  -> (verdict, flag, why), verdict in 'ok' / 'refuted' / 'unknown'.
+    Accepted:  while True: F = False; ...accumulate...; if not F: break      |     F = True; while F: F = False; ...accumulate...
+    where every other assignment of F inside the loop accumulates (F |= e, F = F or e, F = True).  A plain `F = e` inside a nested
+    loop keeps only the last iteration's answer: refuted."""
+    flag = None
+    if any(isinstance(st, ast.Break) for st in w.body):
+        return "refuted", None, "the loop body ends with an unconditional break: a single pass is made"
+    if const(w.test) and w.test.value is True:
+        for b in ast.walk(w):
+            if isinstance(b, ast.Break) and enclosing_loops(b) and enclosing_loops(b)[0] is w:
+                for e, pol in facts(b):
+                    if isinstance(e, ast.Name) and not pol:
+                        flag = e.id
+        if flag is None:
+            return "unknown", None, "no `if not <flag>: break` exit"
+    elif isinstance(w.test, ast.Name):
+        flag = w.test.id
+    else:
+        return "unknown", None, f"loop condition `{norm(w.test)}`"
+    resets = [st for st in w.body if isinstance(st, ast.Assign) and len(st.targets) == 1 and is_name(st.targets[0], flag) and const(st.value, bool) and st.value.value is False]
+    n_acc = 0
+    pending = None
+    for st in ast.walk(w):
+        if resets and st is resets[0]:
+            continue
+        tgt = None
+        if isinstance(st, ast.Assign) and any(is_name(t, flag) for t in st.targets):
+            tgt, val = st, st.value
+            acc = (const(val, bool) and val.value is True) or (isinstance(val, ast.BoolOp) and isinstance(val.op, ast.Or) and any(is_name(x, flag) for x in val.values)) \
+                or (isinstance(val, ast.BinOp) and isinstance(val.op, ast.BitOr) and (is_name(val.left, flag) or is_name(val.right, flag)))
+        elif isinstance(st, ast.AugAssign) and is_name(st.target, flag):
+            tgt = st
+            acc = isinstance(st.op, ast.BitOr)
+        if tgt is None:
+            continue
+        if acc:
+            n_acc += 1
+        elif any(l is not w for l in enclosing_loops(tgt) if any(a is w for a in ancestors(l)) or l is w) and enclosing_loops(tgt)[0] is not w:
+            return "refuted", flag, f"`{norm(tgt)}` overwrites the change flag inside the pass: only the last update decides whether another pass is made, earlier changes are forgotten"
+        else:
+            pending = f"`{norm(tgt)}`"
+    if len(resets) != 1:
+        return "unknown", flag, f"`{flag}` is not reset exactly once at the top of each pass"
+    if pending:
+        return "unknown", flag, pending
+    if n_acc == 0:
+        return "unknown", flag, "the flag is never set"
+    return "ok", flag, ""
 
 def _deps(expr, body_assigns, seen=None):
     """Names an expression depends on, transitively through assignments made in the same loop body (flow-insensitive)."""
